@@ -957,6 +957,9 @@ def parse_for(fields, text, index, *cwd):
         sep += ','
     if fields['mode']['html']:
         s = html.unescape(s)
+        sep = html.unescape(sep)
+        if fsep is not None:
+            fsep = html.unescape(fsep)
     elements = []
     for n in range(start, stop + step // abs(step), step):
         if flags & 4:
@@ -1037,6 +1040,9 @@ def parse_foreach(writer, text, index, *cwd):
         fsep = sep
     if entry_holder.fields['mode']['html']:
         s = html.unescape(s)
+        sep = html.unescape(sep)
+        fsep = html.unescape(fsep)
+        values = [html.unescape(v) for v in values]
     if len(values) == 1:
         retval = s.replace(var, values[0])
     else:
